@@ -36,7 +36,7 @@ ASSUMPTIONS = [
     "the connection is established (client connected, server accepted it, serviceConnects done) before the first packet is queued: the property speaks of connected peers",
     "received packets are observed as appends to the deque passed as rxPkts= (constructor parameter), queued packets as appends to the deque passed as txPkts=",
     "only methods that TcpServerStack.serviceAll / TcpClientStack.serviceAll are composed of (and their ...Once variants and serviceServer) are called; in binary cases the server's rxPkts->message conversion (ascii decode) is not called",
-    "stall verdict: user-space holds unsent bytes, select() reports the socket writable and three complete serviceAll rounds on both stacks move nothing - no clock involved",
+    "stall verdict: a stack holds unsent user-space data, select() reports its socket writable immediately before each of three consecutive complete serviceAll rounds and none of them moves any of that data - no clock involved (a writable TCP socket accepts at least one byte)",
     "the base Packet class has no framing: one received packet may carry the bytes of several queued packets, so only the concatenation is compared",
     "a round bound reached while bytes are still moving, or EOF not seen within the bound, is recorded as inconclusive, never as a violation",
 ]
@@ -328,21 +328,27 @@ class Session(object):
             self.call(c, "serviceAll")
 
     def pending(self):
-        """user-space bytes/packets not yet handed to the kernel: {label: (amount, socket)}"""
+        """user-space data not yet handed to the kernel: {label: (amount, socket or None)}"""
         out = {}
         srv = self.server
         if srv.txMsgs or srv.txPkts:
-            out["server-queues"] = (len(srv.txMsgs) + len(srv.txPkts), None)
+            out["server-queues"] = ((len(srv.txMsgs), len(srv.txPkts)), None)
         for ca, ix in srv.handler.ixes.items():
-            amount = sum(len(d) for d in ix.txes)
-            if amount or ix.txes:
-                out["server-ix-%s" % (ca,)] = (amount, ix.cs)
+            if ix.txes:
+                out["server-ix-%s-%s" % ca] = ((len(ix.txes), sum(len(d) for d in ix.txes)), ix.cs)
         for i, c in enumerate(self.clients):
-            if c.txMsgs or c.txPkts:
-                out["client%d-queues" % i] = (len(c.txMsgs) + len(c.txPkts), c.handler.cs)
-            if c.txbs:
-                out["client%d-txbs" % i] = (len(c.txbs), c.handler.cs)
+            if c.txMsgs or c.txPkts or c.txbs:
+                out["client%d" % i] = ((len(c.txMsgs), len(c.txPkts), len(c.txbs)), c.handler.cs)
         return out
+
+    @staticmethod
+    def writable(sock):
+        if sock is None:
+            return True      # no socket involved (stack queue -> connection queue never blocks)
+        try:
+            return bool(select.select([], [sock], [], 0)[1])
+        except (OSError, ValueError):
+            return False
 
     def state(self):
         pend = self.pending()
@@ -352,9 +358,12 @@ class Session(object):
 
     def drain(self):
         """Flush, half-close, read to EOF, final comparison."""
-        stalled = 0
+        streak = {}    # label -> consecutive rounds that started with a writable socket and moved nothing of it
+        idle = 0
         last = None
         for rnd in range(FLUSH_ROUNDS):
+            before = self.pending()
+            ready = dict((label, self.writable(v[1])) for label, v in before.items())
             self.round()
             self.absorb()
             if self.fails:
@@ -362,27 +371,35 @@ class Session(object):
             pend = self.pending()
             if not pend:
                 break
+            for label in list(streak):
+                if label not in pend:
+                    del streak[label]
+            for label, (amount, sock) in pend.items():
+                if label in before and before[label][0] == amount and ready[label]:
+                    streak[label] = streak.get(label, 0) + 1
+                else:
+                    streak.pop(label, None)
+            stuck = sorted(label for label, k in streak.items() if k >= 3)
+            if stuck:
+                label = stuck[0]
+                flags = ["client%d connected=%r cutoff=%r" % (i, c.handler.connected, c.handler.cutoff)
+                         for i, c in enumerate(self.clients)]
+                flags += ["ix %r cutoff=%r" % (ca, ix.cutoff) for ca, ix in self.server.handler.ixes.items()]
+                side = "client" if label.startswith("client") else "server"
+                self.fail("tx-stalled@" + side,
+                          "%s holds unsent data %r (messages, packets, bytes) and its socket was writable at the start of "
+                          "each of three consecutive complete serviceAll rounds, none of which moved any of it "
+                          "(all pending: %r; %s)" % (label, pend[label][0], sorted((k, v[0]) for k, v in pend.items()),
+                                                     "; ".join(flags)))
+                return
             cur = self.state()
             if cur == last:
-                stalled += 1
-                if stalled >= 3:
-                    for label, (amount, sock) in sorted(pend.items()):
-                        writable = True
-                        if sock is not None:
-                            writable = bool(select.select([], [sock], [], 0)[1])
-                        if writable:
-                            side = "client" if label.startswith("client") else "server"
-                            kind = "txbs" if label.endswith("txbs") else ("queues" if label.endswith("queues") else "ix-txes")
-                            self.fail("tx-stalled@%s-%s" % (side, kind),
-                                      "%s holds %d unsent (bytes/packets) although its socket is writable; three complete "
-                                      "serviceAll rounds on all stacks moved nothing (all pending: %r)"
-                                      % (label, amount, sorted((k, v[0]) for k, v in pend.items())))
-                            return
-                    if stalled >= 200:
-                        raise Inconclusive("no progress and no writable socket for 200 rounds")
-                    time.sleep(0.0005)
+                idle += 1
+                if idle >= 400:
+                    raise Inconclusive("nothing moved for 400 rounds and no stack was stuck with a writable socket")
+                time.sleep(0.0005)
             else:
-                stalled = 0
+                idle = 0
             last = cur
         else:
             raise Inconclusive("transmit queues not empty after %d rounds" % FLUSH_ROUNDS)
@@ -524,7 +541,7 @@ def work(shard, seed, tier):
     from vp.core.env import quiet_ioflo
     quiet_ioflo()
     acc = Acc()
-    n = 20 if tier == "quick" else 150
+    n = 15 if tier == "quick" else 150
 
     def execute(v):
         case = to_case(v)
@@ -557,7 +574,7 @@ def work(shard, seed, tier):
         return Outcome(fails, nontrivial=nt, classes=classes, key=case, sample=sample)
 
     campaign(acc, case_strategy(), execute, n, seed * 1000 + shard["i"], to_case=to_case,
-             budget=Budget(90 if tier == "quick" else 540), shrink_examples=120)
+             budget=Budget(300 if tier == "quick" else 1500), shrink_examples=120)
     return acc
 
 
